@@ -5,7 +5,9 @@ import Nv.Gen.C03
 /-!
 oracle_c03 — line protocol (items are printed `key:val`, lists `[a,b]`, absent `nil`).
 
-First line of a script: `new <degree>` (direct `btree.BTree`, handle 0) or `neww` (wrapper `tree.BTree`).
+First line of a script: `new <degree>` (direct `btree.BTree`, handle 0; degree 2…256), `newi <degree>` (the same with
+`btree.Int` items: keys only, every value is written 0) or `neww` (wrapper `tree.BTree`).
+`fill h a b` / `wfill a b`: bulk insert of a, a±1, …, b (≤ 4096 keys, value `k mod 997`, 0 for Int items) → new length.
 
 direct:  `ins h k v` `del h k` `delmin h` `delmax h` `get h k` `min h` `max h`  → item | nil
          `has h k` → true|false      `len h` → n      `clone h` → h<new handle>     `clear h 0|1` → ok
@@ -35,6 +37,7 @@ structure St where
   wrapper : Bool
   trees : List Tree
   par : Bool := false
+  intMode : Bool := false   -- `newi`: items are `btree.Int` (a key only; the value must be written 0)
   bigUsed : Bool := false   -- a limit in (2^24, 2^42] was already used in this script (see `wscan`)
   heap : Cow.Heap := Cow.Heap.init 32
   htrees : List Cow.HTree := []
@@ -145,6 +148,9 @@ def applyWr (t : Tree) : WrOp → Tree × String
   | .ins x => (wInsert t x, "ok")
   | .get k => (t, showOpt (wGet t k))
 
+/-- the value `fill`/`wfill` store with key `k` (0 for `btree.Int` items) -/
+def fillVal (intMode : Bool) (k : Int) : Nat := if intMode then 0 else (k % 997).toNat
+
 def showWalk : WalkOut → String
   | .items l => showItems l
   | .panic => "panic"
@@ -159,15 +165,35 @@ def step1 (s : St) (line : String) : St × String :=
   match words line with
   | ["new", d] =>
     match pNat d with
-    | some d => if d < 2 || d > 64 then (s, "bad-op") else
+    | some d => if d < 2 || d > 256 then (s, "bad-op") else
         ({ wrapper := false, trees := [Tree.new d], heap := Cow.Heap.init 32, htrees := [⟨d, none, 0, 0⟩], nextCow := 1 }, "ok")
+    | none => (s, "bad-op")
+  | ["newi", d] =>
+    match pNat d with
+    | some d => if d < 2 || d > 256 then (s, "bad-op") else
+        ({ wrapper := false, intMode := true, trees := [Tree.new d], heap := Cow.Heap.init 32, htrees := [⟨d, none, 0, 0⟩],
+           nextCow := 1 }, "ok")
     | none => (s, "bad-op")
   | ["neww"] => ({ wrapper := true, trees := [wNew cfg] }, "ok")
   | ["ins", h, k, v] => withTree s h fun i t =>
     match pInt k, pNat v with
     | some k, some v =>
+      if s.intMode && v != 0 then (s, "bad-op") else
       let r := t.replaceOrInsert ⟨k, v⟩
       (runB (setTree s i r.1) i (fun ht => Cow.replaceOrInsertB ht ⟨k, v⟩), showOpt r.2)
+    | _, _ => (s, "bad-op")
+  | ["fill", h, a, b] => withTree s h fun i t =>
+    -- bulk insert of the keys a, a±1, …, b in that order (at most 4096), value `fillVal k`; answers the new length
+    match pInt a, pInt b with
+    | some a, some b =>
+      let n := (if a ≤ b then b - a else a - b).toNat
+      if n > 4095 then (s, "bad-op") else
+      let keys := (List.range (n + 1)).map (fun (j : Nat) => if a ≤ b then a + Int.ofNat j else a - Int.ofNat j)
+      let s' := keys.foldl (fun (st : St × Tree) k =>
+          let x : Item := ⟨k, fillVal s.intMode k⟩
+          let r := st.2.replaceOrInsert x
+          (runB (setTree st.1 i r.1) i (fun ht => Cow.replaceOrInsertB ht x), r.1)) (s, t)
+      (s'.1, toString s'.2.length)
     | _, _ => (s, "bad-op")
   | ["del", h, k] => withTree s h fun i t =>
     match pInt k with
@@ -223,6 +249,15 @@ def step1 (s : St) (line : String) : St × String :=
   | ["wins", k, v] => withW s fun t =>
     match pInt k, pNat v with
     | some k, some v => ({ s with trees := [wInsert t ⟨k, v⟩] }, "ok")
+    | _, _ => (s, "bad-op")
+  | ["wfill", a, b] => withW s fun t =>
+    match pInt a, pInt b with
+    | some a, some b =>
+      let n := (if a ≤ b then b - a else a - b).toNat
+      if n > 4095 then (s, "bad-op") else
+      let keys := (List.range (n + 1)).map (fun (j : Nat) => if a ≤ b then a + Int.ofNat j else a - Int.ofNat j)
+      let t' := keys.foldl (fun t k => wInsert t ⟨k, fillVal false k⟩) t
+      ({ s with trees := [t'] }, toString t'.length)
     | _, _ => (s, "bad-op")
   | ["wupd", old, k, v] => withW s fun t =>
     match pInt old, pInt k, pNat v with
@@ -285,6 +320,7 @@ def step (s : St) (line : String) : St × String :=
   match words line with
   | ["parbegin"] => if s.wrapper || s.trees.isEmpty || s.par then (s, "bad-op") else ({ s with par := true }, "ok")
   | ["parend"] => if s.par then ({ s with par := false }, "ok") else (s, "bad-op")
+  | ["newi", _] => step1 s line
   | ["new", _] => step1 s line      -- the first line of a script re-initialises everything, an open block included
   | ["neww"] => step1 s line
   | op :: _ => if s.par && !parOk op then (s, "bad-op") else step1 s line
